@@ -7,6 +7,7 @@ import (
 	"fmt"
 	"math/rand"
 	"os"
+	"sort"
 	"testing"
 	"time"
 )
@@ -185,7 +186,7 @@ func (w *vfWorld) drainReads() int {
 	n := 0
 	for ep := 0; ep < 2; ep++ {
 		w.accept(ep)
-		for sid := range w.ep[ep].streams {
+		for _, sid := range w.sortedSids(ep) {
 			for k := 0; k < 10000; k++ {
 				s := w.stream(ep, sid)
 				s.lock.RLock()
@@ -309,7 +310,7 @@ func vfRunXfer(t *testing.T, tr *vfTrace, x vfXfer) (hung bool) {
 				w.accept(0)
 				w.accept(1)
 				ep := r.Intn(2)
-				for sid := range w.ep[ep].streams {
+				for _, sid := range w.sortedSids(ep) {
 					if w.readable(ep, sid) && w.stream(ep, sid).reassemblyQueue.isReadable() {
 						w.read(ep, sid, 1<<17)
 						break
@@ -558,4 +559,13 @@ func init() {
 			}
 		}
 	}
+}
+
+func (w *vfWorld) sortedSids(ep int) []int {
+	out := []int{}
+	for sid := range w.ep[ep].streams {
+		out = append(out, sid)
+	}
+	sort.Ints(out)
+	return out
 }
